@@ -469,4 +469,209 @@ theorem quote_safe : ∀ s, QuoteSafe s → quote s = .ok s
     have hlt := quoteSafe_lt c hc
     simp [quote, utf8, hlt, ih, quoteByte, hc]
 
+/-! ## T19.3 — flattening -/
+
+/-- rules that `CSSStyleSheet.add` simply appends -/
+def isPlain : Rule → Bool
+  | .comment _ => true
+  | .style _ _ => true
+  | .media _ _ => true
+  | .page _ _ _ => true
+  | .fontface _ => true
+  | .unknown _ => true
+  | _ => false
+
+/-- rules that may be wrapped into an @media rule -/
+def isWrappable : Rule → Bool
+  | .comment _ => true
+  | .style _ _ => true
+  | _ => false
+
+theorem Res.ext' {α : Type} (a b : Res α) (h1 : a.val = b.val) (h2 : a.log = b.log) : a = b := by
+  cases a; cases b; simp_all
+
+theorem addRule_plain (vfs : Vfs) (th : Str) (t : Sheet) (r : Rule) (h : isPlain r = true) :
+    addRule vfs th t r = ⟨.ok (t ++ [r]), []⟩ := by
+  cases r <;> simp [isPlain] at h <;> simp [addRule]
+
+theorem addAll_plain (vfs : Vfs) (th : Str) : ∀ (rs : List Rule) (t : Sheet), (∀ r ∈ rs, isPlain r = true) →
+    addAll vfs th t rs = ⟨.ok (t ++ rs), []⟩
+  | [], t, _ => by simp [addAll]
+  | r :: rs, t, h => by
+    simp [addAll, addRule_plain vfs th t r (h r (List.mem_cons_self ..)),
+      addAll_plain vfs th rs (t ++ [r]) (fun d hd => h d (List.mem_cons_of_mem _ hd))]
+
+theorem proxyAddAll_wrappable : ∀ (rs acc : List Rule), (∀ r ∈ rs, isWrappable r = true) →
+    proxyAddAll acc rs = .ok (acc ++ rs)
+  | [], acc, _ => by simp [proxyAddAll]
+  | r :: rs, acc, h => by
+    have hr := h r (List.mem_cons_self ..)
+    have ih := proxyAddAll_wrappable rs (acc ++ [r]) (fun d hd => h d (List.mem_cons_of_mem _ hd))
+    cases r <;> simp [isWrappable] at hr <;> simp [proxyAddAll, ih]
+
+theorem wrappable_combinable (rs : List Rule) (h : ∀ r ∈ rs, isWrappable r = true) : rs.all combinable = true := by
+  simp only [List.all_eq_true]
+  intro r hr
+  have := h r hr
+  cases r <;> simp [isWrappable] at this <;> simp [combinable]
+
+/-- the kind of a rule -/
+def Rule.tag : Rule → Nat
+  | .charset _ => 0
+  | .comment _ => 1
+  | .imp .. => 2
+  | .ns .. => 3
+  | .style .. => 4
+  | .media .. => 5
+  | .page .. => 6
+  | .fontface _ => 7
+  | .unknown _ => 8
+
+theorem isPlain_tag (r : Rule) : isPlain r = (r.tag = 1 || r.tag = 4 || r.tag = 5 || r.tag = 6 || r.tag = 7 || r.tag = 8) := by
+  cases r <;> simp [isPlain, Rule.tag]
+
+theorem isWrappable_tag (r : Rule) : isWrappable r = (r.tag = 1 || r.tag = 4) := by
+  cases r <;> simp [isWrappable, Rule.tag]
+
+/-- replacing URLs keeps the kind of every rule -/
+theorem replRule_tag (f : Str → Except Err Str) (r r' : Rule) (log : List Str)
+    (h : replRule f r = .ok (r', log)) : r'.tag = r.tag := by
+  cases r with
+  | style sel st =>
+    simp only [replRule] at h
+    split at h <;> simp at h
+    obtain ⟨rfl, _⟩ := h; rfl
+  | fontface st =>
+    simp only [replRule] at h
+    split at h <;> simp at h
+    obtain ⟨rfl, _⟩ := h; rfl
+  | page sel st ms =>
+    simp only [replRule] at h
+    split at h
+    · simp at h
+    · split at h <;> simp at h
+      obtain ⟨rfl, _⟩ := h; rfl
+  | media m rs =>
+    simp only [replRule] at h
+    split at h <;> simp at h
+    obtain ⟨rfl, _⟩ := h; rfl
+  | charset _ => simp [replRule] at h; obtain ⟨rfl, _⟩ := h; rfl
+  | comment _ => simp [replRule] at h; obtain ⟨rfl, _⟩ := h; rfl
+  | imp a b c d e => simp [replRule] at h; obtain ⟨rfl, _⟩ := h; rfl
+  | ns a b => simp [replRule] at h; obtain ⟨rfl, _⟩ := h; rfl
+  | unknown _ => simp [replRule] at h; obtain ⟨rfl, _⟩ := h; rfl
+
+theorem replRules_tags (f : Str → Except Err Str) : ∀ (rs rs' : List Rule) (log : List Str),
+    replRules f rs = .ok (rs', log) → rs'.map Rule.tag = rs.map Rule.tag
+  | [], rs', log, h => by simp [replRules] at h; simp [h.1.symm]
+  | r :: rs, rs', log, h => by
+    simp only [replRules] at h
+    split at h
+    · simp at h
+    · rename_i a ha
+      split at h
+      · simp at h
+      · rename_i b hb
+        simp at h
+        obtain ⟨rfl, _⟩ := h
+        simp [replRule_tag f r a.1 a.2 ha, replRules_tags f rs b.1 b.2 hb]
+
+theorem all_of_tags (p : Rule → Bool) (q : Nat → Bool) (hp : ∀ r, p r = q r.tag) (rs rs' : List Rule)
+    (h : rs'.map Rule.tag = rs.map Rule.tag) (ha : ∀ r ∈ rs, p r = true) : ∀ r ∈ rs', p r = true := by
+  intro r hr
+  have : r.tag ∈ rs'.map Rule.tag := List.mem_map_of_mem hr
+  rw [h] at this
+  obtain ⟨r0, hr0, e⟩ := List.mem_map.mp this
+  rw [hp, ← e, ← hp]
+  exact ha r0 hr0
+
+/-- `media` of the import is kept by wrapping the group into one @media rule -/
+def wrapMedia (media : Str) (rs : Sheet) : Sheet := if media = mediaAll then rs else [.media media rs]
+
+/-- **the specification of flattening** for a loaded import tree in which every target is available and every
+group can be wrapped: the rules of all reachable sheets in cascade order — the rules an @import stands for come
+where the @import stood, after a marker comment, re-based against the @import's href and wrapped in its media;
+@charset rules disappear. -/
+inductive Flat : Sheet → Sheet → Prop where
+  | nil : Flat [] []
+  | charset (e : Str) {rs out : Sheet} : Flat rs out → Flat (.charset e :: rs) out
+  | plain {r : Rule} {rs out : Sheet} : isPlain r = true → Flat rs out → Flat (r :: rs) (r :: out)
+  | imp {href media ihref : Str} {sheet inner rebased rs out : Sheet} {log : List Str} :
+      Flat sheet inner →
+      replRules (replacer href) inner = .ok (rebased, log) →
+      (media = mediaAll ∨ ∀ r ∈ rebased, isWrappable r = true) →
+      Flat rs out →
+      Flat (.imp href media true ihref sheet :: rs)
+           (.comment (startComment href) :: wrapMedia media rebased ++ out)
+
+theorem replRules_plain (f : Str → Except Err Str) (rs rs' : List Rule) (log : List Str)
+    (h : replRules f rs = .ok (rs', log)) (hp : ∀ r ∈ rs, isPlain r = true) : ∀ r ∈ rs', isPlain r = true :=
+  all_of_tags isPlain (fun n => n = 1 || n = 4 || n = 5 || n = 6 || n = 7 || n = 8) isPlain_tag rs rs' (replRules_tags f rs rs' log h) hp
+
+theorem Flat.plain_out {rs out : Sheet} (h : Flat rs out) : ∀ r ∈ out, isPlain r = true := by
+  induction h with
+  | nil => simp
+  | charset e _ ih => exact ih
+  | plain hp _ ih =>
+    intro r hr
+    rcases List.mem_cons.mp hr with rfl | hr
+    · exact hp
+    · exact ih r hr
+  | @imp href media ihref sheet inner rebased rs out log _ hre hm _ ih1 ih2 =>
+    intro r hr
+    rcases List.mem_cons.mp hr with rfl | hr
+    · rfl
+    · rcases List.mem_append.mp hr with hr | hr
+      · unfold wrapMedia at hr
+        split at hr
+        · exact replRules_plain _ inner rebased log hre ih1 r hr
+        · simp at hr; subst hr; rfl
+      · exact ih2 r hr
+
+theorem resolveRules_cons (vfs : Vfs) (th : Str) (t : Sheet) (r : Rule) (rs : List Rule) (t' : Sheet)
+    (h : resolveRule vfs th t r = ⟨.ok t', []⟩) :
+    resolveRules vfs th t (r :: rs) = resolveRules vfs th t' rs := by
+  simp [resolveRules, h]
+
+/-- T19.3: on such a tree `resolveImports` computes exactly the specified sheet, appended to whatever the target
+holds, and calls no fetcher -/
+theorem resolveRules_flat (vfs : Vfs) {rs out : Sheet} (h : Flat rs out) :
+    ∀ (th : Str) (t : Sheet), resolveRules vfs th t rs = ⟨.ok (t ++ out), []⟩ := by
+  induction h with
+  | nil => intro th t; simp [resolveRules]
+  | charset e _ ih =>
+    intro th t
+    rw [resolveRules_cons vfs th t _ _ t (by simp [resolveRule]), ih]
+  | @plain r rs out hp _ ih =>
+    intro th t
+    have : resolveRule vfs th t r = ⟨.ok (t ++ [r]), []⟩ := by
+      cases r <;> simp [isPlain] at hp <;> simp [resolveRule, addRule]
+    rw [resolveRules_cons vfs th t _ _ _ this, ih]
+    simp
+  | @imp href media ihref sheet inner rebased rs out log hin hre hm _ ih1 ih2 =>
+    intro th t
+    have hplain := replRules_plain _ inner rebased log hre hin.plain_out
+    have : resolveRule vfs th t (.imp href media true ihref sheet)
+        = ⟨.ok (t ++ .comment (startComment href) :: wrapMedia media rebased), []⟩ := by
+      simp only [resolveRule]
+      simp only [Bool.true_eq_false, ↓reduceIte, addRule, ih1 ihref [], List.nil_append, replaceUrls, hre]
+      by_cases hma : media = mediaAll
+      · simp [hma, wrapMedia, addAll_plain vfs th rebased _ hplain]
+      · have hw := hm.resolve_left hma
+        simp [hma, wrapMedia, wrappable_combinable rebased hw, proxyAddAll_wrappable rebased [] hw]
+    rw [resolveRules_cons vfs th t _ _ _ this, ih2]
+    simp
+
+
+/-- observation of a result through a decidable projection -/
+def Res.okMap {α β : Type} (r : Res α) (f : α → β) : Option β :=
+  match r.val with
+  | .ok a => some (f a)
+  | .error _ => none
+
+def Res.err? {α : Type} (r : Res α) : Option Err :=
+  match r.val with
+  | .ok _ => none
+  | .error e => some e
+
 end CssVerif.Urls
